@@ -1,5 +1,6 @@
 //! vh - verification harness for BWeng20/rFSM (driven by /verif/tools/check.py).
 
+mod dump;
 mod expr;
 mod rec;
 mod run;
@@ -22,6 +23,12 @@ fn main() {
             let threads = args.get(4).and_then(|s| s.parse().ok()).unwrap_or(8usize);
             if let Err(e) = run::run_file(&args[2], &args[3], threads) {
                 eprintln!("run failed: {}", e);
+                std::process::exit(2);
+            }
+        }
+        "dump" => {
+            if let Err(e) = dump::run_file(&args[2], &args[3]) {
+                eprintln!("dump failed: {}", e);
                 std::process::exit(2);
             }
         }
